@@ -9,6 +9,28 @@ from . import frontend
 from .api import ConcreteCtx, NoConcrete, Ty, Module, _iface_lookup
 
 
+class PeekIter:
+    """The concrete counterpart of the engine's (sequence, position) cell for `Iterator[...]` parameters:
+    a list iterator whose underlying sequence (`xs`) and number of consumed items (`pos`) can be inspected."""
+
+    def __init__(self, items):
+        self.xs = list(items)
+        self.pos = 0
+
+    @property
+    def items(self):
+        return self.xs
+
+    def __iter__(self):
+        return self
+
+    def __next__(self):
+        if self.pos >= len(self.xs):
+            raise StopIteration
+        self.pos += 1
+        return self.xs[self.pos - 1]
+
+
 def make_stub(cx, iface, uid):
     """A concrete object behaving as the interface describes, with the attribute values of the model."""
     target = getattr(iface, 'target_class', None)
@@ -32,6 +54,30 @@ def make_stub(cx, iface, uid):
         return property(get)
 
     ns = {n: mk_prop(n, t) for n, t in attrs.items()}
+    methods = {}
+    for k in reversed(iface.__mro__):
+        methods.update(k.__dict__.get('methods', {}) or {})
+
+    def mk_method(name, m):
+        counter = [0]
+
+        def call(self, *args, **kwargs):
+            # ghost events become entries of the replay's trace; results are rebuilt from the model
+            if m.event is not None:
+                cx.trace.append((m.event, self, tuple(args) + tuple(kwargs.values())))
+            r = None
+            if isinstance(m.returns, Ty):
+                counter[0] += 1
+                r = m.returns.concrete(cx, '%s.%s()' % (uid, name))
+            if m.event is not None:
+                cx.trace.append((m.event + ':returned', self, r))
+            return r
+
+        return call
+
+    for n, m in methods.items():
+        if m.model is None and n not in ns:
+            ns[n] = mk_method(n, m)
     ns['__abstractmethods__'] = frozenset()
     ns['__repr__'] = lambda self: '<stub %s %s>' % (iface.__name__, uid)
     ns['__str__'] = ns['__repr__']
@@ -41,15 +87,73 @@ def make_stub(cx, iface, uid):
     return object.__new__(cls)
 
 
-def find_contract(module_names, qname):
+def find_contract(module_names, key):
+    """key: 'qname' or 'qname#<property>' (a further contract of the same function in another module)"""
+    qname, _, prop = key.partition('#')
+    prop = prop.partition('.')[0]
+    found = []
     for mn in module_names:
         mod = importlib.import_module(mn)
         m = getattr(mod, 'M', None)
         if isinstance(m, Module):
             for c in m.contracts:
                 if c.qname == qname:
-                    return c
-    raise LookupError(qname)
+                    found.append((m, c))
+    if prop:
+        for m, c in found:
+            if m.prop == prop:
+                return c
+    for m, c in found:
+        if not c.trusted:
+            return c
+    if found:
+        return found[0][1]
+    raise LookupError(key)
+
+
+def stub_trusted(module_names, cx):
+    """Functions with an ASSUMED (trusted) contract are replaced, as in the proof, by stubs that record the
+    contract's ghost event and return a value of the declared shape."""
+    import inspect
+    for mn in module_names:
+        mod = importlib.import_module(mn)
+        m = getattr(mod, 'M', None)
+        if not isinstance(m, Module):
+            continue
+        for c in m.contracts:
+            if not c.trusted:
+                continue
+            try:
+                obj, owner = frontend.resolve_qualified(c.qname)
+            except LookupError:
+                continue
+            func = frontend.raw_function(obj)
+            if not isinstance(func, types.FunctionType):
+                continue
+
+            def stub(*args, _c=c, _f=func, **kwargs):
+                try:
+                    bound = inspect.signature(_f).bind(*args, **kwargs)
+                    bound.apply_defaults()
+                    d = dict(bound.arguments)
+                except TypeError:
+                    d = {}
+                if _c.event is not None:
+                    cx.trace.append((_c.event, d))
+                r = _c.returns.concrete(cx, 'ret.' + _c.qname.rpartition(':')[2]) if isinstance(_c.returns, Ty) else None
+                if _c.event is not None:
+                    cx.trace.append((_c.event + ':returned', d, r))
+                return r
+
+            if owner is not None:
+                setattr(owner, func.__name__, staticmethod(stub) if isinstance(obj, staticmethod) else stub)
+            else:
+                setattr(importlib.import_module(c.qname.partition(':')[0]), func.__name__, stub)
+                # references imported by name into other modules of the repository
+                for mod2 in list(sys.modules.values()):
+                    if getattr(mod2, '__name__', '').startswith('exactly_lib') and \
+                            getattr(mod2, func.__name__, None) is func:
+                        setattr(mod2, func.__name__, stub)
 
 
 def _call(pred, env):
@@ -72,9 +176,11 @@ def run_generic(module_names, qname, obligation, model):
     """Rebuild the counter-model's inputs, call the real function, evaluate the clause natively.
     Returns the exit status of the replay script."""
     c = find_contract(module_names, qname)
+    qname = c.qname
     obj, owner = frontend.resolve_qualified(qname)
     func = frontend.raw_function(obj)
     cx = ConcreteCtx(model)
+    stub_trusted(module_names, cx)
     try:
         args = {n: (t.concrete(cx, n) if isinstance(t, Ty) else t) for n, t in c.params.items()}
         ghosts = {n: (t.concrete(cx, 'ghost.' + n) if isinstance(t, Ty) else t) for n, t in c.ghosts.items()}
@@ -88,7 +194,7 @@ def run_generic(module_names, qname, obligation, model):
         print('  ghost %-10s = %s' % (n, show(v)))
     env = dict(args)
     env.update(ghosts)
-    env.update({'trace': [], 'ghost': {}})
+    env.update({'trace': cx.trace, 'ghost': {}})
     if c.requires is not None:
         try:
             if not _call(c.requires, env):
@@ -106,6 +212,7 @@ def run_generic(module_names, qname, obligation, model):
         result = func(*pos, **kw)
         if isinstance(result, types.GeneratorType):
             result = list(result)
+            env['yielded'] = result          # generator functions: the ghost sequence of the contract clauses
         outcome = ('return', result)
         print('returned  :', show(result))
     except Exception as e:
@@ -114,9 +221,9 @@ def run_generic(module_names, qname, obligation, model):
     m = re.search(r' : ensures\[(.*)\]$', obligation)
     if m:
         if outcome[0] != 'return':
-            print('function raised instead of returning')
-            allowed = tuple(x for x in list(c.raises) + list(c.may_raise) if isinstance(x, type))
-            return 0 if isinstance(outcome[1], allowed) and allowed else 1
+            print('function raised instead of returning: this run does not exercise the clause '
+                  '(an exception that the contract does not allow is the subject of the raises_only obligation)')
+            return 0
         clause = c.ensures[m.group(1)]
         env2 = dict(env, ret=outcome[1], old=old)
         env2.setdefault('result', outcome[1])
@@ -124,7 +231,9 @@ def run_generic(module_names, qname, obligation, model):
             ok = _call(clause, env2)
         except Exception as e:
             print('clause raised', repr(e))
-            ok = False
+            print('the clause cannot be evaluated natively on the rebuilt input (stubs answer with defaults): '
+                  'not counted as a reproduction')
+            return 2
         print('clause ensures[%s] evaluates to %r on the real result' % (m.group(1), bool(ok)))
         return 0 if ok else 1
     if ' : raises_only(' in obligation:
